@@ -7,6 +7,7 @@ package htmltree
 
 import (
 	"fmt"
+	"regexp"
 	"sort"
 	"strings"
 
@@ -26,6 +27,9 @@ type Options struct {
 	RawEqual bool
 	// CSSEqual, JSEqual: optional semantic comparators for style / on* attribute values and raw text
 	CSSInlineEqual func(a, b string) bool
+	// EmbeddedOpaque: style and on* attributes are left out of the comparison (their values are minified by other
+	// minifiers); together with RawEqual=false only the structure around embedded content is compared
+	EmbeddedOpaque bool
 }
 
 func setOf(s string) map[string]bool {
@@ -42,6 +46,7 @@ var blockish = setOf(`address article aside blockquote body center details dialo
  table caption colgroup col thead tbody tfoot tr td th
  br
  area base basefont bgsound datalist link meta noembed noframes param rp source title track`)
+
 // script, style, template and noscript are not rendered, but they can stand between words in phrasing
 // content: the spaces around them then collapse to ONE space, they do not vanish (C03: words are never
 // joined). They are therefore transparent here, not boundaries.
@@ -128,7 +133,7 @@ func canonAttrs(n *html.Node, o Options) string {
 			if nm, ok2 := get("name"); ok2 {
 				if strings.EqualFold(strings.TrimSpace(nm), "keywords") {
 					if c2, ok3 := get("content"); ok3 {
-						attrs["content"] = strings.ReplaceAll(c2, ", ", ",")
+						attrs["content"] = reCommaSpace.ReplaceAllString(c2, ",") // a comma separated list
 					}
 				} else if strings.EqualFold(strings.TrimSpace(nm), "viewport") {
 					if c2, ok3 := get("content"); ok3 {
@@ -171,6 +176,8 @@ func canonAttrs(n *html.Node, o Options) string {
 		switch {
 		case booleanAttrs[k]:
 			sb.WriteString(" " + k)
+			continue
+		case o.EmbeddedOpaque && (k == "style" || strings.HasPrefix(k, "on") && len(k) > 2):
 			continue
 		case k == "style":
 			v = strings.TrimSpace(v)
@@ -230,6 +237,8 @@ func canonAttrs(n *html.Node, o Options) string {
 	return sb.String()
 }
 
+var reCommaSpace = regexp.MustCompile(`,[ \t\n\r\f]+`)
+
 func canonViewport(s string) string {
 	// the viewport algorithm separates properties by commas, semicolons and whitespace, and allows whitespace around =
 	for _, eq := range []string{" =", "= "} {
@@ -237,7 +246,9 @@ func canonViewport(s string) string {
 			s = strings.ReplaceAll(s, eq, "=")
 		}
 	}
-	parts := strings.FieldsFunc(s, func(r rune) bool { return r == ',' || r == ';' || r == ' ' || r == '\t' || r == '\n' || r == '\r' || r == '\f' })
+	parts := strings.FieldsFunc(s, func(r rune) bool {
+		return r == ',' || r == ';' || r == ' ' || r == '\t' || r == '\n' || r == '\r' || r == '\f'
+	})
 	// numbers: 1.0 == 1
 	for i, p := range parts {
 		if j := strings.IndexByte(p, '='); j >= 0 {
@@ -302,6 +313,9 @@ func Stream(root *html.Node, o Options) []string {
 			if (n.Data == "script" || n.Data == "style") && n.Namespace == "" && n.FirstChild == nil && canonAttrs(n, o) == "" {
 				return // empty script/style elements without attributes are removed by the minifier
 			}
+			if o.EmbeddedOpaque && (n.Data == "script" || n.Data == "style") && n.Namespace == "" && canonAttrs(n, o) == "" {
+				return // whether it is empty (and removed) depends on the embedded minifier
+			}
 			blk := blockish[n.Data] && n.Namespace == ""
 			isAtom := atoms[n.Data] && n.Namespace == ""
 			kind := "open"
@@ -348,14 +362,18 @@ func Stream(root *html.Node, o Options) []string {
 			merge := !pending && t.kind == "word" && len(out) > 0 && strings.HasPrefix(out[len(out)-1], "w:")
 			pending, atStart = false, false
 			if t.kind == "raw" {
-				out = append(out, "raw:"+t.text)
+				if !o.EmbeddedOpaque {
+					out = append(out, "raw:"+t.text)
+				}
 			} else if merge {
 				out[len(out)-1] += t.text // adjacent text nodes (a removed comment between them) form one word
 			} else {
 				out = append(out, "w:"+t.text)
 			}
 		case "rawhidden":
-			out = append(out, "raw:"+t.text)
+			if !o.EmbeddedOpaque {
+				out = append(out, "raw:"+t.text)
+			}
 		case "atom":
 			if pending {
 				out = append(out, "␠")
